@@ -44,7 +44,7 @@ func validatorLevel(run *core.Run, tier string) {
 			for _, r2 := range routes {
 				for _, vb := range verbs {
 					for _, third := range []bool{false, true} {
-						for _, noisy := range []bool{false, true} {
+						for _, noisy := range []string{"", "other-warning", "hidden"} {
 							id := fmt.Sprintf("w%04d", n)
 							n++
 							p1, p2 := strings.ReplaceAll(pf[0], "§", id), strings.ReplaceAll(pf[1], "§", id)
@@ -52,9 +52,13 @@ func validatorLevel(run *core.Run, tier string) {
 							c2 := scen.Controller{Name: "B" + id, Pkg: id, Prefix: scen.S(p2), Tag: scen.S("U" + id)}
 							c1.Methods = []scen.Method{mk(id, "One"+id, vb[0], p1, r1)}
 							c2.Methods = []scen.Method{mk(id, "Two"+id, vb[1], p2, r2)}
-							if noisy {
+							switch noisy {
+							case "other-warning":
 								// the second method already carries a warning of its own (a status code outside the registry)
 								c2.Methods[0].Response = "641 unusual"
+							case "hidden":
+								// hidden from the document, but still registered with the router: its overlaps are as real
+								c2.Methods[0].Hidden = true
 							}
 							rs := []rt{{"One" + id, vb[0], p1 + r1}, {"Two" + id, vb[1], p2 + r2}}
 							if third {
@@ -62,7 +66,7 @@ func validatorLevel(run *core.Run, tier string) {
 								rs = append(rs, rt{"Three" + id, vb[0], p2 + r1})
 							}
 							cases = append(cases, scen.Case{ID: id, Unit: scen.Unit{Controllers: []scen.Controller{c1, c2}},
-								Features: map[string]string{"level": "validator", "prefixes": pf[0] + "|" + pf[1], "routes": r1 + "|" + r2, "verbs": vb[0] + "|" + vb[1], "third": fmt.Sprint(third), "other-warning-on-second-method": fmt.Sprint(noisy)},
+								Features: map[string]string{"level": "validator", "prefixes": pf[0] + "|" + pf[1], "routes": r1 + "|" + r2, "verbs": vb[0] + "|" + vb[1], "third": fmt.Sprint(third), "second-method": noisy},
 								Desc:     []scen.Controller{c1, c2}})
 							expect[id] = rs
 						}
